@@ -475,3 +475,12 @@ M("c01-swap-static-tmp", "C01", "cstl_bintree_swap keeps its temporary in a stat
   ("src/bintree.c", "    struct cstl_bintree t;\n    cstl_swap(a, b, &t, sizeof(t));", "    static struct cstl_bintree t;\n    cstl_swap(a, b, &t, sizeof(t));"), also=["C02", "C07"])
 M("c09-swap-static-tmp", "C09", "cstl_vector_swap keeps its temporary in a static variable",
   ("src/vector.c", "    struct cstl_vector t;\n    cstl_swap(a, b, &t, sizeof(t));", "    static struct cstl_vector t;\n    cstl_swap(a, b, &t, sizeof(t));"))
+
+# __attribute__((malloc)) on a function that hands the caller's own element back: an optimised caller may assume the result
+# aliases nothing it can name (the library's object code is unchanged)
+M("c01-erase-malloc-attribute", "C01", "cstl_bintree_erase declared __attribute__((malloc))",
+  ("include/cstl/bintree.h", "void * cstl_bintree_erase(struct cstl_bintree * bt, const void * e);", "__attribute__((malloc)) void * cstl_bintree_erase(struct cstl_bintree * bt, const void * e);"))
+M("c12-pop-front-malloc-attribute", "C12", "cstl_dlist_pop_front declared __attribute__((malloc))",
+  ("include/cstl/dlist.h", "void * cstl_dlist_pop_front(struct cstl_dlist * l);", "__attribute__((malloc)) void * cstl_dlist_pop_front(struct cstl_dlist * l);"))
+M("c13-pop-front-malloc-attribute", "C13", "cstl_slist_pop_front declared __attribute__((malloc))",
+  ("include/cstl/slist.h", "void * cstl_slist_pop_front(struct cstl_slist * sl);", "__attribute__((malloc)) void * cstl_slist_pop_front(struct cstl_slist * sl);"))
